@@ -148,8 +148,13 @@ func runC15(w *h.W, batch int) {
 			active := w.Begin(desc)
 			vpath := filepath.Join(work, fmt.Sprintf("vspec-%d.json", round))
 			writeSpec(vpath, vspec)
+			delBefore := map[string]bool{}
+			for _, f := range delFiles(dir) {
+				delBefore[f] = true
+			}
 			res := h.SpawnPhase(work, "store", 3*time.Minute, nil, vpath)
 			evs := readPhaseOut(vspec.Out)
+			delAfterV := delFiles(dir)
 			startSizes := fileSizes(dir)
 			var hookEvs []hookEvent
 			var ires h.PhaseResult
@@ -261,6 +266,16 @@ func runC15(w *h.W, batch int) {
 					}
 				}
 			}
+			if bad == "" && ready && ver != nil {
+				// a deletion marker that was on disk before this start must be gone after it (markers created by this
+				// process's own retention pass may legitimately be in flight when it exits)
+				for _, f := range delAfterV {
+					if delBefore[f] {
+						class, bad = "deletion-not-finished", fmt.Sprintf("%s was on disk before the start and is still there after a complete start-up: the deletion that had begun was not finished off", f)
+						break
+					}
+				}
+			}
 			retiredNow := 0
 			for _, b := range bulks {
 				if b.gone {
@@ -334,6 +349,15 @@ func listDir(dir string) []string {
 		if st, err := os.Stat(f); err == nil && !st.IsDir() {
 			out = append(out, fmt.Sprintf("%s:%d", filepath.Base(f), st.Size()))
 		}
+	}
+	return out
+}
+
+func delFiles(dir string) []string {
+	var out []string
+	files, _ := filepath.Glob(filepath.Join(dir, "*.del"))
+	for _, f := range files {
+		out = append(out, filepath.Base(f))
 	}
 	return out
 }
